@@ -6,6 +6,7 @@ import (
 	"bytes"
 	"encoding/binary"
 	"fmt"
+	"math/bits"
 	"testing"
 	"testing/synctest"
 	"time"
@@ -28,7 +29,7 @@ func (World) Name() string { return "clock" }
 
 const (
 	day        = int64(86400)
-	bubbleBase = int64(946684800) // 2000-01-01T00:00:00Z, where every synctest bubble starts
+	bubbleBase = int64(946684800)           // 2000-01-01T00:00:00Z, where every synctest bubble starts
 	maxT       = int64(9223372036) - 10*day // the bubble clock is int64 ns since 1970: it stops at 2262-04-11
 	y2038      = int64(1<<31 - 1)
 	y2106      = int64(1<<32 - 1)
@@ -72,6 +73,20 @@ func pickMillis(r *engine.RNG) uint64 {
 	default:
 		return (uint64(bubbleBase)+uint64(r.Intn(int(200*365*day))))*1000 + uint64(r.Intn(1000))
 	}
+}
+
+// wrapPoint returns the smallest s with s*mul >= k*2^64, i.e. the first
+// second count whose product with mul has wrapped k times in 64 bits
+// (k < mul).
+func wrapPoint(k, mul uint64) int64 {
+	q, rem := bits.Div64(k, 0, mul)
+	if rem != 0 {
+		q++
+	}
+	if q > 1<<62 {
+		q = 1 << 62
+	}
+	return int64(q)
 }
 
 func edIdent(sh *engine.Shape, r *engine.RNG) {
@@ -120,6 +135,22 @@ func (World) Generate(r *engine.RNG, tier string) *engine.Script {
 				sec = y2106 + int64(r.Uint64()>>30)
 			case 3:
 				sec = int64(1<<32) + int64(pickSec(r)) // would wrap to a valid-looking value
+			case 4:
+				// far beyond the range: powers of two and the points where a
+				// multiplication by 1000 / 10^6 / 10^9 wraps a 64-bit intermediate
+				// back into a valid-looking value
+				switch r.Intn(5) {
+				case 0:
+					sec = int64(1) << uint(r.Range(33, 62))
+				case 1:
+					sec = (1<<63 - 1) - int64(r.Intn(3))
+				case 2:
+					sec = wrapPoint(uint64(r.Range(1, 499)), 1000) + int64(pickSec(r))
+				case 3:
+					sec = wrapPoint(uint64(r.Range(1, 499999)), 1000000) + int64(pickSec(r))
+				default:
+					sec = (1<<63-1)/1000 + int64(r.Range(-2, 2))
+				}
 			}
 			op.N = []int64{sec, int64(r.PickInt(0, 0, 1, 999999999))}
 			sh = nil
